@@ -52,7 +52,7 @@ func NewEnv(prog *ssa.Program) *Env {
 		IteIndexMax:  512,
 		Params:       map[string]int64{},
 		Limits:       Limits{MaxSteps: 20_000_000, MaxDecisions: 5000, ConcretCap: 64},
-		SolverKind:   "z3",
+		SolverKind:   "z3-new",
 		TimeoutMS:    30000,
 		Workers:      8,
 		MaxPaths:     200000,
